@@ -155,6 +155,14 @@ def _quiet(*a, **k):
     return None
 
 
+def _print(*a, sep=' ', end='\n', file=None, flush=False):
+    """print(): text sent to an in-memory buffer or to a file object of the checker is written there; the console is not modelled"""
+    import io
+    if file is not None and (isinstance(file, io.StringIO) or 'write' in getattr(file, 'pyeval_native', ())):
+        file.write(sep.join(str(x) for x in a) + end)
+    return None
+
+
 _GEN_CACHE = {}
 
 
@@ -178,6 +186,7 @@ INTRINSICS = {
     'logging.info': _quiet, 'logging.error': _quiet, 'logging.warning': _quiet, 'logging.debug': _quiet, 'logging.basicConfig': _quiet,
     're.sub': _re.sub, 're.match': _re.match, 're.search': _re.search, 're.split': _re.split, 're.fullmatch': _re.fullmatch,
     're.compile': _re.compile, 're.findall': _re.findall, 're.escape': _re.escape,
+    'io.StringIO': __import__('io').StringIO,
     'os.path.join': os.path.join, 'os.path.basename': os.path.basename,
     'collections.OrderedDict': dict, 'OrderedDict': dict,
     'datetime.datetime': _datetime.datetime, 'datetime.timedelta': _datetime.timedelta, 'datetime.date': _datetime.date,
@@ -242,7 +251,7 @@ _SAFE_TYPES = (str, list, dict, set, tuple, int, bool, frozenset, bytes, float, 
 _BUILTINS = {'len': len, 'range': range, 'min': min, 'max': max, 'sum': sum, 'any': any, 'all': all, 'enumerate': enumerate, 'zip': zip,
              'reversed': reversed, 'list': list, 'tuple': tuple, 'set': set, 'dict': dict, 'str': str, 'int': int, 'bool': bool, 'abs': abs,
              'ord': ord, 'chr': chr, 'divmod': divmod, 'round': round, 'repr': repr, 'sorted': sorted, 'map': map, 'filter': filter,
-             'frozenset': frozenset, 'hex': hex, 'float': float, 'iter': iter, 'next': next, 'print': _quiet, 'bytes': bytes}
+             'frozenset': frozenset, 'hex': hex, 'float': float, 'iter': iter, 'next': next, 'print': _print, 'bytes': bytes}
 _TYPES = {'str': str, 'int': int, 'list': list, 'dict': dict, 'tuple': tuple, 'set': set, 'bool': bool, 'float': float}
 
 
@@ -988,6 +997,8 @@ class PyEval:
             return getattr(o, name)
         if isinstance(o, _re.Match) and name in ('group', 'groups', 'start', 'end', 'span', 'groupdict', 'lastindex', 'string'):
             return getattr(o, name)
+        if isinstance(o, __import__('io').StringIO) and name in ('write', 'getvalue', 'writelines', 'read', 'readline', 'readlines', 'seek', 'tell', 'close', 'truncate'):
+            return getattr(o, name)          # an in-memory text buffer
         if isinstance(o, _re.Pattern) and name in ('sub', 'subn', 'match', 'search', 'fullmatch', 'split', 'findall', 'pattern', 'flags'):
             return getattr(o, name)          # a compiled pattern: its methods are those of the re module
         if name in getattr(o, 'pyeval_native', ()):
